@@ -518,7 +518,38 @@ ORACLES = {"C19": oracle_c19, "C09": oracle_c09, "C12": oracle_c12, "C02": oracl
 
 # ---- projections: which part of a reply a property's correspondence compares --------------
 
+def rename_changed(case, im):
+    """a rename request in which at least one identifier got a new name"""
+    ws = case.get("raw") or []
+    if not ws or ws[0] != "rename":
+        return False
+    nf = int(ws[1])
+    rest = ws[2 + nf:]
+    toks = rest[1:]
+    names = [toks[i] for i in range(0, len(toks) - 2, 3) if toks[i + 2] != "s"]
+    return names != im.split(" | ")[0].split()[1:]
+
+
+def group_oracle_c15(res):
+    """rename stream: the harness re-type-checks every copied declaration under the generated import block and
+    compares, identifier by identifier, what it resolves to with what the original resolved to"""
+    fails = []
+    for req, im, meta in zip(res["reqs"], res["impl"], res["meta"]):
+        verdict = im.split(" | ")[-1] if " | " in im else im
+        if verdict == "bind ok":
+            continue
+        fname, _, decl = meta.partition(":")
+        src = res.get("sources", {}).get(fname, "")
+        m = re.search(r"(?ms)^func (?:\([^)]*\) )?%s\b.*?^}" % re.escape(decl), src)
+        fails.append({"request": req[:3000], "impl": im[-1500:], "declaration": decl, "file": fname,
+                      "source": (m.group(0) if m else src)[:4000], "imports": src[:src.find(")") + 1],
+                      "why": ["copied declaration %s: %s" % (decl, verdict[:400])]})
+    return fails
+
+
 def project(prop, reply):
+    if prop == "C15":
+        return reply.split(" | ")[0]
     if prop in ("C02", "C10", "C11", "C09", "C14", "C16", "C19", "C12", "C13", "C15", "C17", "C19", "C20", "C01"):
         return reply
     parts = []
@@ -550,6 +581,12 @@ def run_stream(mode, args, timeout=900):
             a = dict(zip(args[::2], args[1::2]))
             env = dict(GOENV, WIREVERIF_GATHER="%s,%s,%s" % (a.get("-seed", 1), a.get("-n", 1000), d))
             rc, out, err = run([WIRESHOW], env=env, timeout=timeout)
+        elif mode == "rename":
+            from . import renamegen
+            a = dict(zip(args[::2], args[1::2]))
+            os.makedirs(d + "/src")
+            renamegen.write_sources(d + "/src", int(a.get("-seed", 1)), int(a.get("-n", 40)))
+            rc, out, err = run([WIREVERIF, mode, "-out", d, "-src", d + "/src"], timeout=timeout)
         else:
             rc, out, err = run([WIREVERIF, mode, "-out", d] + [str(a) for a in args], timeout=timeout)
         reqs = open(d + "/req.txt").read().split("\n") if os.path.exists(d + "/req.txt") else []
@@ -561,11 +598,19 @@ def run_stream(mode, args, timeout=900):
             impl.pop()
         if meta and meta[-1] == "":
             meta.pop()
+        extra = {}
+        if mode == "rename":
+            # sources the harness could not use (a defect of the generator, never of Wire) are counted, not compared
+            keep = [i for i, r in enumerate(reqs) if not r.startswith("rename-skip")]
+            extra["skipped"] = [impl[i] for i, r in enumerate(reqs) if r.startswith("rename-skip")][:5]
+            extra["n_skipped"] = len(reqs) - len(keep)
+            reqs, impl, meta = [reqs[i] for i in keep], [impl[i] for i in keep], [meta[i] for i in keep if i < len(meta)]
+            extra["sources"] = {f: open(d + "/src/" + f).read() for f in sorted(os.listdir(d + "/src"))}
         rc2, mout, merr = run([WIREMODEL], inp="\n".join(reqs) + "\n", timeout=timeout)
         model = mout.split("\n")
         if model and model[-1] == "":
             model.pop()
-        return {"reqs": reqs, "impl": impl, "model": model, "meta": meta, "rc": rc, "err": err + merr, "rc_model": rc2}
+        return dict(extra, reqs=reqs, impl=impl, model=model, meta=meta, rc=rc, err=err + merr, rc_model=rc2)
     finally:
         rmtree(d)
 
